@@ -281,6 +281,87 @@ func c01(r *engine.Report, p *engine.Program) {
 			"every store to nodeInfo.Epoch/Sequence stores ri.UpdateEpoch/ri.UpdateSequence itself", "the recorded epoch/sequence is not the accepted update's own value (e.g. a max with the old one): after a restart of the origin its new, lower sequence numbers are rejected until they pass the old ones, so its adjacency changes are ignored")
 	}
 
+	// R3d the "did the adjacency change?" decision looks at costs, not only at the neighbour set
+	{
+		ri := hru.Params[1]
+		connF := p.Field("netceptor", "routingUpdate", "Connections")
+		fromAdvert := func(v ssa.Value) bool {
+			f, b := engine.FieldOfLoad(v)
+			return f == connF && b == ssa.Value(ri)
+		}
+		fromStored := func(v ssa.Value) bool { return derivesFromField(v, kcc) }
+		ok := false
+		for _, ci := range engine.CallsIn(hru) {
+			if engine.IsCallTo(ci.Common(), "reflect.DeepEqual", "maps.Equal") {
+				a := ci.Common().Args
+				if len(a) == 2 && ((fromAdvert(engine.Unwrap(a[0])) && fromStored(engine.Unwrap(a[1]))) || (fromAdvert(engine.Unwrap(a[1])) && fromStored(engine.Unwrap(a[0])))) {
+					ok = true
+				}
+			}
+		}
+		if !ok {
+			// a hand-written comparison: some == / != between a cost of the advertised map and a cost of the stored row
+			isAdvCost := func(v ssa.Value) bool {
+				v = engine.Unwrap(v)
+				if v.Type().String() != "float64" {
+					return false
+				}
+				return derivesFromField(v, connF)
+			}
+			isStoredCost := func(v ssa.Value) bool {
+				v = engine.Unwrap(v)
+				return v.Type().String() == "float64" && derivesFromField(v, kcc)
+			}
+			for _, b := range hru.Blocks {
+				for _, in := range b.Instrs {
+					if bo, isB := in.(*ssa.BinOp); isB && (bo.Op == token.EQL || bo.Op == token.NEQ) {
+						if (isAdvCost(bo.X) && isStoredCost(bo.Y)) || (isAdvCost(bo.Y) && isStoredCost(bo.X)) {
+							ok = true
+						}
+					}
+				}
+			}
+		}
+		r.Check("R3-own-row", "handleRoutingUpdate: the change test compares neighbour costs, not only the neighbour set", hru.Pos(), ok,
+			"the advertised adjacency is compared with the stored row including costs (reflect.DeepEqual / per-cost comparison)", "whether an accepted update replaces the stored adjacency is decided without comparing costs: a cost-only change is never applied and no rebuild is requested, so path costs and next hops stay stale for good")
+	}
+	// R1b idle detection: the activity timestamp is written only when something was RECEIVED
+	{
+		lrd := p.Field("netceptor", "connInfo", "lastReceivedData")
+		var writers []string
+		for _, a := range p.FieldAccesses(lrd) {
+			if a.Kind == engine.AccStore && !engine.IsMock(a.Fn) && !engine.IsFreshAlloc(a.Base) {
+				writers = append(writers, engine.FuncName(a.Fn))
+			}
+		}
+		sort.Strings(writers)
+		okW := len(writers) == 1 && writers[0] == "(*netceptor.connInfo).protoReader"
+		if okW {
+			// and only after a successful Recv
+			pr := p.Func("(*netceptor.connInfo).protoReader")
+			var recv *ssa.Call
+			for _, ci := range engine.CallsIn(pr) {
+				if ci.Common().IsInvoke() && ci.Common().Method.Name() == "Recv" {
+					recv, _ = ci.(*ssa.Call)
+				}
+			}
+			if recv == nil {
+				okW = false
+			} else {
+				cut, tested := assumeFails(pr, recv)
+				var st ssa.Instruction
+				for _, a := range engine.FieldAccessesIn(pr, lrd) {
+					if a.Kind == engine.AccStore {
+						st = a.Instr
+					}
+				}
+				okW = tested && engine.Reach(pr, recv, cut, nil, func(in ssa.Instruction) bool { return in == st }) == nil
+			}
+		}
+		r.Check("R1-rebuild-requested", "connInfo.lastReceivedData: written only by protoReader after a successful Recv", token.NoPos, okW,
+			"the idle detector's timestamp advances only when data was received from the peer", fmt.Sprintf("the activity timestamp is written in %v / without a successful receive: a session that accepts writes but delivers nothing is never timed out, so a silently failed link stays in the routing tables", writers))
+	}
+
 	// R4 positive costs
 	costPositivity(r, p, "R4-positive-costs")
 
